@@ -1,2 +1,4 @@
 pub mod c16;
 pub mod c01;
+pub mod c10;
+pub mod c11;
